@@ -84,6 +84,7 @@ PROP_CONFIGS = {
     'C07': dict(quick=['s1_weekly', 's1_weekly_holiday', 's2_weekly5', 's2_latestart'], thorough=None),
     'C08': dict(quick=['s1_weekly', 's1_bah', 's1_ls', 's1_two_rebalances'], thorough=['s1_weekly', 's1_bah', 's2_weekly', 's1_ls', 's1_ls8', 's1_two_rebalances', 's2_ls', 's1_eom', 's1_daily', 's1_weekly_fri', 's1_zerofee_weekly_mon']),
     'C18': dict(quick=['s2_weekly5', 's2_dynamic_signals'], thorough=['s2_weekly', 's2_dynamic_signals', 's1_weekly', 's2_ls', 's3_dynamic_signals']),
+    'C16': dict(quick=['s2_dynamic_signals'], thorough=['s2_dynamic_signals', 's3_dynamic_signals']),
     'C19': dict(quick=['s2_entries_on_instant', 's2_entries_minute_late', 's2_entries_never', 's2_entries_after_end'],
                 thorough=['s3_entries', 's2_entries_on_instant', 's2_entries_minute_late', 's2_entries_never', 's2_entries_after_end']),
     'C14': dict(quick=['s1_weekly', 's1_burnin', 's1_burnin_between', 's1_bah'], thorough=['s1_weekly', 's1_burnin', 's1_bah', 's1_burnin_between', 's1_eom', 's1_daily', 's2_weekly', 's1_weekly_fri']),
@@ -97,7 +98,7 @@ def configs_for(prop, tier):
     for c in allc:
         if names is None or c['name'] in names:
             c = dict(c, oracle=prop, name='%s' % c['name'])
-            c['twins'] = [] if c['name'] in ('s2_latestart',) else {'C07': ['traded'], 'C08': ['traded'], 'C14': ['traded'], 'C18': ['traded'], 'C19': ['traded']}.get(prop, [])
+            c['twins'] = [] if c['name'] in ('s2_latestart',) else {'C07': ['traded'], 'C08': ['traded'], 'C14': ['traded'], 'C18': ['traded'], 'C19': ['traded'], 'C16': ['traded']}.get(prop, [])
             out.append(c)
     return out
 
@@ -325,6 +326,8 @@ class Session(Harness):
         return dict(equity=list(s.equity_curve), history=hist, fills=rec['fills'], alloc=list(s.target_allocations), cash=port.cash,
                     holdings={a: d['quantity'] for a, d in s.broker.get_portfolio_as_dict(PID).items()}, err=rec['err'],
                     dh_calls=rec['dh_calls'], schedule=list(s.rebalance_schedule), ds=ds,
+                    signal_windows=({a: list(signals['sma'].buffers.prices.get('%s_2' % a, ['absent'])) for a in self.A} if signals is not None else None),
+                    signal_updates=(signals.warmup if signals is not None else None),
                     alloc_cols=[[k for k in a_.keys()] for a_ in s.target_allocations])
 
     def cuts(self):
@@ -435,6 +438,27 @@ class Session(Harness):
             obl.append(('%s:allocation_columns_in_the_same_order' % name, L.bool(base['alloc_cols'] != w['alloc_cols'])))
         return obl
 
+    def oracle_c16(self, L, i, o):
+        """during a backtest every signal receives exactly one observation per asset per business day - that day's close -
+        and an asset that enters the universe later starts with an empty window"""
+        import pandas as pd
+        run = o['base']
+        obl = [('session_completes', L.bool(run['err'] is not None))]
+        opens, closes, reb, at, burn = self.calendar()
+        obl.append(('one_signal_update_per_business_day_close', L.bool(run['signal_updates'] != len(closes))))
+        entry = {a: (pd.Timestamp(e, tz='UTC') if e else None) for a, e in (self.cfg['entries'] or {}).items()}
+        for a in self.A:
+            e = entry.get(a, closes[0]) if self.cfg['universe'] == 'dynamic' else closes[0]
+            days = [k for k, c in enumerate(closes) if e is not None and e <= c]
+            want = [L.num(i['m'][self.vname(a, 'c', k)]) for k in days][-2:]
+            got = run['signal_windows'][a]
+            got = [] if got == ['absent'] else got
+            obl.append(('%s:window_length' % a, L.bool(len(got) != len(want))))
+            if len(got) == len(want):
+                for n, (x, y) in enumerate(zip(got, want)):
+                    obl.append(('%s:window[%d]_is_that_days_close' % (a, n), L.ne(x, y)))
+        return obl
+
     def oracle_c19(self, L, i, o):
         """composition: nothing is weighted, ordered or held for an asset before its universe entry; it is included from the
         first rebalance at or after its entry"""
@@ -506,7 +530,7 @@ class Session(Harness):
     def oracle(self, L, i, out):
         if out.kind != 'ok':
             return [('session_runs', L.true)]
-        f = {'C07': self.oracle_c07, 'C14': self.oracle_c14, 'C08': self.oracle_c08, 'C18': self.oracle_c18, 'C19': self.oracle_c19}[self.prop]
+        f = {'C07': self.oracle_c07, 'C14': self.oracle_c14, 'C08': self.oracle_c08, 'C18': self.oracle_c18, 'C19': self.oracle_c19, 'C16': self.oracle_c16}[self.prop]
         return f(L, i, out.value)
 
     def oracle_c07(self, L, i, o):
